@@ -168,6 +168,8 @@ def run(ctx):
             if not same:
                 r2 = {"status": "rows-differ", "detail": "", "sql": a["sql"], "names": names}
                 fid = relcheck.classify(type("X", (), {"prql": prql, "columns": c.columns})(), r2)
+                if fid is None and kind == "id-take-open" and re.search(r"take [^\n]*\n(?:[^\n]*\n)*?sort [^\n]*\ntake 1\.\.", prql):
+                    fid = "open-take-after-sort-merges-earlier-take"
                 if fid is None and kind in ("let-prefix", "into") and re.search(r"OVER \((?:PARTITION BY [^()]*)?\)", a["sql"]) and \
                         re.search(r"OVER \([^()]*ORDER BY", r["sql"]) and "sort" in prql:
                     fid = "window-order-lost-across-let"
